@@ -98,6 +98,9 @@ TTML_3 = b"""<?xml version="1.0" encoding="UTF-8"?>
   <p begin="10.0006s" end="12s" style="c4">second</p>
   <p begin="12.0004s" end="12.0006s" style="c3">flash</p>
   <p begin="13.00049s" end="13.0005s">tie</p>
+  <p begin="59.9996s" end="61s">a hair before the minute</p>
+  <p begin="100s" end="119.99951s">ends a hair before two minutes</p>
+  <p begin="3599.9997s" end="3600.0004s">around the hour</p>
   <p begin="14s" end="14s">empty</p>
   <p begin="15s" end="14s">backwards</p>
  </div></body>
@@ -116,6 +119,19 @@ line two
 3
 100:00:00,001 --> 100:00:01,999
 - last & final <3
+"""
+# colour values at and beyond the edges of what <font color> can say
+SRT_2 = b"""1
+00:00:01,000 --> 00:00:02,000
+<font color="rgba(255,0,0,255)">in range</font> <font color="rgba(255,0,0,256)">alpha too large</font>
+
+2
+00:00:03,000 --> 00:00:04,000
+<font color="rgb(300,0,0)">red too large</font> <font color="#12345">five digits</font> <font color="rgba(1,2,3)">three of four</font>
+
+3
+00:00:05,000 --> 00:00:06,000
+<font color="#FF000000">transparent</font> <font color="nosuchcolour">unknown name</font> <font color="">empty</font> <font>none</font>
 """
 VTT_1 = b"""WEBVTT - title
 
@@ -155,7 +171,7 @@ TTML_5 = b"""<?xml version="1.0" encoding="UTF-8"?>
 <tt xml:lang="en" xmlns="http://www.w3.org/ns/ttml" xmlns:tts="http://www.w3.org/ns/ttml#styling">
  <head><layout><region xml:id="r1" tts:extent="80% 20%" tts:origin="10% 70%"/><region xml:id="r2" tts:extent="80% 20%" tts:origin="10% 10%"/></layout></head>
  <body><div><div><div region="r2"><p begin="3s"><span>third</span></p><div><p begin="3s" end="4s">bounded</p><p begin="3.5s">open</p></div></div></div><p>no region</p></div>
- <div region="r1"><p begin="1s" end="2s">only child</p></div><div region="r1"/>
+ <div region="r1"><p begin="1s" end="2s">only child</p><p begin="2s" end="3s"><set tts:color="red"><span>inside a set</span></set>after</p></div><div region="r1"/>
  </body>
 </tt>
 """
@@ -216,9 +232,43 @@ def stl_hand():
   return B.build_file({"dfc": "STL25.01", "dsc": "1", "cct": "00", "tcp": [10, 0, 0, 0], "mnr": 23}, blocks)
 
 
+def random_scc(rng):
+  from .. import scc_util as U
+  from .c17 import _w
+  ctl = ["RCL", "BS", "DER", "RU2", "RU3", "RU4", "RDC", "EDM", "CR", "ENM", "EOC", "TO1", "TO2", "TO3", "AOF", "AON", "FON", "TR", "RTD"]
+  lines = []
+  t = rng.randrange(0, 200)
+  for _ in range(rng.randint(1, 6)):
+    ws = []
+    for _ in range(rng.randint(1, 10)):
+      x = rng.random()
+      if x < 0.4:
+        try:
+          w = U.w_ctl(rng.choice(ctl))
+        except (KeyError, ValueError):
+          w = U.w_ctl("EDM")
+        ws += [w, w] if rng.random() < 0.7 else [w]
+      elif x < 0.55:
+        w = U.w_pac(rng.randint(1, 15), rng.randrange(32))
+        ws += [w, w] if rng.random() < 0.8 else [w]
+      elif x < 0.6:
+        w = U.w_midrow(rng.randrange(16))
+        ws += [w, w]
+      elif x < 0.64:
+        ws.append(U.w_special(rng.randrange(16)))
+      elif x < 0.68:
+        ws.append(U.w_extended(rng.choice([2, 3]), rng.randrange(32)))
+      else:
+        ws.append(U.w_chars(rng.randint(0x20, 0x7f), rng.choice([0, rng.randint(0x20, 0x7f)])))
+    lines.append((t, ws))
+    t += len(ws) + rng.randrange(0, 60)
+  return ("Scenarist_SCC V1.0\n\n" + "".join("%02d:%02d:%02d:%02d\t%s\n\n" % (0, (f // 1800) % 60, (f // 30) % 60, f % 30, " ".join(_w(w) for w in ws))
+                                             for f, ws in lines)).encode("ascii")
+
+
 def seeds():
   """format -> list of (name, bytes)."""
-  out = {"ttml": [("hand1", TTML_1), ("hand2_ruby", TTML_2), ("hand3_cycles_subms", TTML_3), ("hand4_nested_open", TTML_4), ("hand5_nested_regions", TTML_5)], "srt": [("hand1", SRT_1)],
+  out = {"ttml": [("hand1", TTML_1), ("hand2_ruby", TTML_2), ("hand3_cycles_subms", TTML_3), ("hand4_nested_open", TTML_4), ("hand5_nested_regions", TTML_5)], "srt": [("hand1", SRT_1), ("hand2_colours", SRT_2)],
          "vtt": [("hand1", VTT_1), ("hand2_ruby", VTT_2)], "scc": [("hand1", SCC_1)], "stl": [("hand_cumulative", stl_hand())]}
   for f in sorted(glob.glob(RES + "/ttml/*.ttml"))[:4]:
     out["ttml"].append((os.path.basename(f), open(f, "rb").read()))
@@ -335,6 +385,11 @@ def run(ctx):
       for _ in range(400 if thorough else 20):
         rid += 1
         jobs.append((fmt, name, data, "bytes", seedbase + rid, None, rid))
+  # SCC files made of well-formed words in an arbitrary order (no caption protocol is followed: mode switches in the middle
+  # of a caption, EOC without RCL, erasures and back spaces anywhere) - every one of them is a legal SCC file
+  for _ in range(6000 if thorough else 1500):
+    rid += 1
+    jobs.append(("scc", "random_words", random_scc(ctx.rng), [], seedbase + rid, None, rid))
   # degenerate inputs
   for fmt in base:
     for name, data in (("empty", b""), ("newline", b"\n"), ("nul", b"\x00" * 64), ("bom", b"\xef\xbb\xbf")):
